@@ -122,6 +122,20 @@ def inv(t, identity: bool = True) -> str:
         want = sorted(q[len(p):] for q, _ in ns if q[:len(p)] == p)
         if sorted(sub.keys()) != want:
             return "sub-trie at %s has keys %s, want %s" % (p, sorted(sub.keys())[:4], want[:4])
+    # the path-indexed view must not be disturbed by handing out sub-views (the tree caches ONE trie object)
+    if sorted(t.trie().keys()) != sorted(p for p, _ in ns):
+        return "after requesting sub-tries the full trie lists %d keys for %d paths" % (len(t.trie().keys()), len(ns))
+    if len(ns) >= 3:
+        p1, p2 = ns[1][0], ns[-1][0]
+        s1 = t.trie().get_subtrie(p1)
+        k1 = sorted(s1.keys())
+        s2 = t.trie().get_subtrie(p2)
+        if sorted(s1.keys()) != k1 or sorted(s1.keys()) != sorted(q[len(p1):] for q, _ in ns if q[:len(p1)] == p1):
+            return "a sub-trie obtained earlier changed after another sub-trie was requested (%s, %s)" % (p1, p2)
+        if sorted(s2.keys()) != sorted(q[len(p2):] for q, _ in ns if q[:len(p2)] == p2):
+            return "sub-trie at %s wrong" % (p2,)
+        if sorted(t.trie().keys()) != sorted(p for p, _ in ns):
+            return "full trie changed after sub-tries were requested"
     if [p for p, _ in t.leaves()] != [p for p, _ in leaves]:
         return "leaves() disagrees"
     if [p for p, _ in t.open_leaves()] != [p for p, n in ns if n.children is None]:
@@ -184,6 +198,20 @@ def step(t, depth) -> str:
             r = same_struct_law(t, t2)
             if r:
                 return r
+    # substitution maps with two keys, including a node together with one of its descendants
+    ns_all = nodes(t)
+    for i, (p, n) in enumerate(ns_all):
+        for q, m in ns_all[i + 1:]:
+            for va, vb in ((variants(n.value)[-1], variants(m.value)[0]), (variants(n.value)[0], variants(m.value)[-1])):
+                mapping = {n: va, m: vb}
+                want = t
+                for key, repl in mapping.items():      # reference: one replacement after the other, by id, skipping vanished keys
+                    pos = next((pp for pp, x in nodes(want) if x.id == key.id), None)
+                    if pos is not None:
+                        want = want.replace_path(pos, repl)
+                got = t.substitute(mapping)
+                if not struct_eq(got, want) or [x.id for _, x in nodes(got)] != [x.id for _, x in nodes(want)]:
+                    return "substitute({%s: .., %s: ..}) = %r, sequential replacement gives %r" % (p, q, str(got), str(want))
     n_open = sum(1 for _, n in nodes(t) if n.children is None)
     # expand_one_step returns the product over all open leaves: only for trees with few open leaves
     for t2 in (t.expand_one_step(CAN) if n_open <= 4 else []):
